@@ -50,11 +50,12 @@ Mask(s) == [r \in 1..NR |-> [c \in 1..NC |-> ~MsExplored(s, <<r, c>>)]]
 
 (* successor: a valid click reveals exactly the clicked cell (mine or not: the cell shows the
    number of neighbouring mines); an invalid click reveals nothing.  Mines never move. *)
-Next(s, a) ==
+Succ(s, a) ==
   LET rc == MsCellOf(a) IN
   [ board |-> IF Legal(s, a) THEN [s.board EXCEPT ![rc[1]][rc[2]] = MsAdjMines(s, rc)] ELSE s.board,
     step_count |-> s.step_count + 1,
     flat_mine_locations |-> s.flat_mine_locations ]
+StepRel(s, a, t) == t = Succ(s, a)
 
 MsOutcome(s, a) == IF ~Legal(s, a) THEN "invalid" ELSE IF MsIsMine(s, MsCellOf(a)) THEN "mine" ELSE "safe"
 
